@@ -24,6 +24,37 @@ check('C05', 'model_checking',
       'TLA+ spec of the LR driver + TLC exhaustive check + TLC trace validation of recorded parser runs',
       'DESIGN.md 2.1, 2.2, 5/C05')
 
+check('C02', 'model_checking',
+      'TLC checks the call-level machine ParseSql (outcome alphabet, nested-run budget, termination; the internal-error '
+      'leak is exhibited when allowed) and Terminates/OutcomeAllowed of SlyDriver on toy grammars; every parse_sql '
+      'call over the corpus (test strings, accepted statements, token mutants incl. sign/key-removal mutants, random '
+      'token soups with unicode, 3 dialects) is recorded at driver level and call level and both traces are validated '
+      'by TLC with the invariants evaluated at every step.',
+      'Inputs are sampled (seeded); RecursionError on deep nesting is not provoked; termination = finite trace within '
+      'a linear step budget.',
+      'TLA+ specs SlyDriver + ParseSql, TLC exhaustive design check + TLC trace validation of recorded calls',
+      'DESIGN.md 2.1, 2.3, 5/C02')
+check('C19', 'model_checking',
+      'TLC proves the caret contract CaretOK for the TLA+ transcription of error_location on every layout of up to 3 '
+      '(thorough 4) tokens; every real message for generated rejected inputs in generated layouts is judged by TLC '
+      '(CaretOK and equality with the transcription); every suggested concrete token is decided shiftable or not by '
+      'TLC from the real LR tables at the TLC-validated error configuration.',
+      'Weakest reading: carets are judged against the line printed in the message; suggestions need only be '
+      'shiftable at the error configuration. mindsdb dialect only (the property is about it).',
+      'TLA+ spec of the message contract + LR tables, TLC exhaustive layout check + TLC judgement of recorded messages',
+      'DESIGN.md 2.3, 5/C19')
+check('C20', 'model_checking',
+      'TLC proves Isolation and OwnerExclusive of Calls.tla for fresh instances under all interleavings and exhibits '
+      'the corrupting interleaving for cached instances; every interleaving TLC enumerates is forced on real threads '
+      '(driver-step granularity for parsing via the sink, method granularity for planner/renderer), results are '
+      'compared with sequential baselines and the combined logs are validated by TLC (one owner per instance); '
+      'histories (shuffled orders, failing calls, one shared catalog) and PYTHONHASHSEED values are compared with '
+      'fresh-process baselines.',
+      'Forced interleavings cover the first steps of each call; free-running threads, histories and hash seeds are '
+      'sampled.',
+      'TLA+ spec of concurrent calls, TLC-enumerated schedules replayed on real threads + TLC trace validation',
+      'DESIGN.md 2.9, 5/C20')
+
 ALL = ['C%02d' % i for i in range(1, 21)]
 
 
